@@ -268,4 +268,40 @@ def jtCalls (call : JT → JTRes Vegeta.Model.JSONTargets.JRec) : Nat → JT →
       | none => none
       | some (os, st2) => some (o :: os, st2)
 
+/-! ### The commands' decoder assembly (file.go `decoder(files)`, encode.go / report.go / plot.go)
+
+    files := fs.Args()
+    if len(files) == 0 { files = append(files, "stdin") }
+    …
+    for _, f := range files {
+        rc, err := file(f, false);    if err != nil { return nil, closer, err }
+        dec := vegeta.DecoderFor(rc); if dec == nil { return nil, closer, fmt.Errorf("encode: can't detect encoding of %q", f) }
+        decs = append(decs, dec); closer = append(closer, rc)
+    }
+    return vegeta.NewRoundRobinDecoder(decs...), closer, nil
+
+`detect f = none`: the file cannot be opened or no decoder accepts its beginning (`DecoderFor` = nil — also
+for an input without a single byte). Opening and detection are parameters. -/
+
+/-- the word the commands use for standard input -/
+def stdinWord : Bytes := [115, 116, 100, 105, 110]
+
+/-- no file argument means standard input -/
+def commandFiles (args : List Bytes) : List Bytes := if args.isEmpty then [stdinWord] else args
+
+/-- the loop of `decoder(files)`: one decoder per file in order, the first failure ends it (`none`) -/
+def assemble {δ : Type} (detect : Bytes → Option δ) : List Bytes → Option (List δ)
+  | [] => some []
+  | f :: t =>
+    match detect f with
+    | none => none
+    | some d =>
+      match assemble detect t with
+      | none => none
+      | some ds => some (d :: ds)
+
+/-- what a command hands to `NewRoundRobinDecoder` -/
+def commandDecoders {δ : Type} (detect : Bytes → Option δ) (args : List Bytes) : Option (List δ) :=
+  assemble detect (commandFiles args)
+
 end Vegeta.Model.ParserGuards
